@@ -401,7 +401,10 @@ match_virtual_override(const CPPFunctionType &other) const {
     return false;
   }
 
-  if (((_flags ^ other._flags) & ~(F_override | F_final)) != 0) {
+  // The virt-specifiers, the exception specification and the spelling of the
+  // return type are not part of what an overrider has to match.
+  if (((_flags ^ other._flags) &
+       ~(F_override | F_final | F_noexcept | F_trailing_return_type)) != 0) {
     return false;
   }
 
